@@ -10,6 +10,7 @@
 import WaveletsVerif.Lemmas.Basic
 import WaveletsVerif.Lemmas.Lift
 import WaveletsVerif.Lemmas.Per
+import WaveletsVerif.Properties.C07
 namespace WV.C01
 open Finset WV
 variable {R : Type} [CommRing R]
@@ -334,6 +335,86 @@ theorem DWTForward_eq_wavedec2 (mode : Mode) (hm : mode = .zero ∨ mode = .symm
       exact dwt2_cA_nonempty mode hm c0 r0 hc0 hr0 x hx
     rw [ih _ hnext]
     simp [Spec.dwt2]
+
+omit [CommRing R] in
+theorem map_eq_tab {β : Type} (xs : List (List R)) (g : List R → β) :
+    xs.map g = tab xs.length fun c => g (xs.getD c []) := by
+  apply List.ext_getElem
+  · simp
+  · intro i h1 h2
+    simp [tab, List.getD_eq_getElem?_getD, List.getElem?_eq_getElem (by simpa using h1 : i < xs.length)]
+
+/-- `AFB1D.forward` on ANY number of channels: every channel gets its own `(dwt h0, dwt h1)` -/
+theorem AFB1D_forward_multi (mode : Mode) (hm : ModeOK (R := R) mode) (h0 h1 : List R)
+    (hL0 : 2 ≤ h0.length) (hL1 : 2 ≤ h1.length) (xs : List (List R)) (hx : ∀ x ∈ xs, 1 ≤ x.length) :
+    AFB1D_forward mode h0.reverse h1.reverse xs
+      = some (xs.map (Spec.dwt mode h0), xs.map (Spec.dwt mode h1)) := by
+  unfold AFB1D_forward
+  have hget : ∀ c < xs.length, ((xs.map fun ch => [ch]) : List (Img R)).getD c [] = [xs.getD c []] := by
+    intro c hc
+    simp [List.getD_eq_getElem?_getD, List.getElem?_eq_getElem hc]
+  rw [C07.afb1dT_total .W mode h0.reverse h1.reverse (xs.map fun ch => [ch])
+    (fun im => [Spec.dwt mode h0 (im.getD 0 [])]) (fun im => [Spec.dwt mode h1 (im.getD 0 [])])
+    (by
+      intro c hc
+      have hc' : c < xs.length := by simpa using hc
+      rw [hget c hc']
+      have hxc : 1 ≤ (xs.getD c []).length := by
+        have : xs.getD c [] ∈ xs := by
+          simp [List.getD_eq_getElem?_getD, List.getElem?_eq_getElem hc']
+        exact hx _ this
+      have e0 := hm h0 (xs.getD c []) hL0 hxc
+      have e1 := hm h1 (xs.getD c []) hL1 hxc
+      constructor
+      · simp only [alongO, alongWO, List.mapM_cons, List.mapM_nil, e0]; rfl
+      · simp only [alongO, alongWO, List.mapM_cons, List.mapM_nil, e1]; rfl)]
+  simp only [Option.bind_eq_bind, Option.bind_some, List.length_map]
+  have hlen : (2 * xs.length) / 2 = xs.length := by omega
+  rw [C07.map_tab, length_tab, hlen, map_eq_tab xs (Spec.dwt mode h0), map_eq_tab xs (Spec.dwt mode h1)]
+  congr 2
+  · apply tab_ext rfl
+    intro c hc
+    rw [getD_tab]
+    have h1 : 2 * c < 2 * xs.length := by omega
+    have h2 : (2*c) % 2 = 0 := by omega
+    have h3 : (2*c) / 2 = c := by omega
+    simp only [h1, if_true, h2, h3, hget c hc]
+    rfl
+  · apply tab_ext rfl
+    intro c hc
+    rw [getD_tab]
+    have h1 : 2 * c + 1 < 2 * xs.length := by omega
+    have h2 : (2*c+1) % 2 = 1 := by omega
+    have h3 : (2*c+1) / 2 = c := by omega
+    simp only [h1, if_true, h2, h3, hget c hc, Nat.one_ne_zero, if_false]
+    rfl
+
+/-- the J-level 1-D transform on ANY number of channels acts channel by channel: every channel of every
+band is `wavedec` of that channel alone (C07's per-slice statement for the whole multi-level transform),
+for every J, in the modes zero / symmetric / periodic. -/
+theorem DWT1DForward_multi (mode : Mode) (hm : mode = .zero ∨ mode = .symmetric ∨ mode = .periodic)
+    (h0 h1 : List R) (hL0 : 2 ≤ h0.length) (hL1 : 2 ≤ h1.length) (J : Nat) (xs : List (List R))
+    (hx : ∀ x ∈ xs, 1 ≤ x.length) :
+    DWT1DForwardM mode J h0 h1 xs
+      = some (xs.map (fun x => (Spec.wavedec mode h0 h1 J x).1),
+              (List.range J).map fun j => xs.map fun x => (Spec.wavedec mode h0 h1 J x).2.getD j []) := by
+  unfold DWT1DForwardM
+  induction J generalizing xs with
+  | zero => simp [DWT1DForward, Spec.wavedec]
+  | succ J ih =>
+    simp only [DWT1DForward]
+    rw [AFB1D_forward_multi mode (modeOK_of mode hm) h0 h1 hL0 hL1 xs hx]
+    simp only [Option.bind_eq_bind, Option.bind_some]
+    have hx' : ∀ y ∈ xs.map (Spec.dwt mode h0), 1 ≤ y.length := by
+      intro y hy
+      simp only [List.mem_map] at hy
+      obtain ⟨a, ha, rfl⟩ := hy
+      rw [dwt_length mode hm]; unfold dwtCoeffLen; have := hx a ha; omega
+    rw [ih _ hx']
+    simp only [Option.bind_some, Spec.wavedec, List.map_map, Function.comp_def]
+    congr 2
+    rw [List.range_succ_eq_map]
+    simp [List.map_map, Function.comp_def]
 
 /-- non-vacuity: a 2×3 integer image and Haar-like integer filters meet every hypothesis -/
 example : (1 ≤ ([[1,2,3],[4,5,6]] : Img Int).length) ∧ (∀ r ∈ ([[1,2,3],[4,5,6]] : Img Int), 1 ≤ r.length) := by
